@@ -33,6 +33,7 @@ def symbols():
     reg = {(ie.ent, ie.id): ie for ie in G.registry()}
     P101, Q101 = reg[(0, 101)], reg[(56506, 101)]
     R1, S1 = reg[(0, 1)], reg[(29305, 1)]
+    UNSUP = next(ie for ie in G.registry() if ie.ty == 16)
     sym = {}
     rec = bytes([0x11, 0x22, 0x33, 0x44, 0x55, 0x66])
     for d in DOMS:
@@ -61,6 +62,10 @@ def symbols():
             # element's identity differs, which the decoded message shows as name / enterprise of its fields
             sym[("R", d, i)] = W.message(d, 2, W.template_body(i, [R1, u32]))
             sym[("S", d, i)] = W.message(d, 2, W.template_body(i, [S1, u32]))
+            # U: a well-formed template whose second element IS in the registry but of a data type the library cannot
+            # decode (flowStartMicroseconds, dateTimeMicroseconds): rejected after its id was read - the older template for
+            # the id is erased, data that follows is refused
+            sym[("U", d, i)] = W.message(d, 2, W.template_body(i, [u16, UNSUP]))
             sym[("D", d, i)] = W.message(d, i, rec + rec)
     for d in DOMS:
         sym[("W", d, 2)] = W.message(d, 2, W.template_body(2, []))
@@ -80,7 +85,7 @@ def nontrivial(hist):
 def gen_cases(rng, tier):
     sym = symbols()
     allkeys = sorted(sym)
-    keys = [k for k in allkeys if k[0] not in "PQRSW"]      # the exhaustive enumeration below (P/Q: see further down)
+    keys = [k for k in allkeys if k[0] not in "PQRSWU"]      # the exhaustive enumeration below (P/Q: see further down)
     cases = []
 
     def add(hist, label):
@@ -100,10 +105,10 @@ def gen_cases(rng, tier):
         for d in datas:
             add(hist + (d,), "exh%d-data" % (full + 1))
     # same element ids under another enterprise: all histories of length <= 4 (+ a data symbol) over the symbols of ONE key
-    one = [k for k in allkeys if k[1:] == (1, 256) and k[0] in "APQRSXED"] + [("W", 1, 2)]
+    one = [k for k in allkeys if k[1:] == (1, 256) and k[0] in "APQRSXEDU"] + [("W", 1, 2)]
     for n in range(1, 5):
         for hist in itertools.product(one, repeat=n):
-            if any(k[0] in "PQRSW" for k in hist):
+            if any(k[0] in "PQRSWU" for k in hist):
                 add(hist + (("D", 1, 256),), "same-ids-other-enterprise")
     keys = allkeys                                       # the random histories draw from the whole alphabet
     nrand = 3000 if tier == "quick" else 40000
@@ -130,5 +135,5 @@ def run(ctx):
     rng = random.Random(ctx.seed * 1000003 + 4)
     cases = gen_cases(rng, ctx.tier)
     res = run_dec(ctx, cases, "C04", signature, use_spec=True)
-    res["notes"].append("histories enumerated exhaustively up to the stated length over the 32-symbol core alphabet (all 40 symbols in the random histories and the dedicated same-ids family)")
+    res["notes"].append("histories enumerated exhaustively up to the stated length over the 32-symbol core alphabet (all 44 symbols in the random histories and the dedicated same-ids family)")
     return res
